@@ -179,11 +179,18 @@ DateOk(o, filters) ==
 DecidedFilter(f) == f.name \in StoredAttrs
 LocateDecided(it) == \A i \in DOMAIN it.p.filters : DecidedFilter(it.p.filters[i])
 
-LocateSet(a, id, filters) ==
+LocateSetBy(a, id, filters, permitted(_)) ==
     {u \in DOMAIN a.objs :
-        /\ Grant(a, id, u, "Locate")
+        /\ permitted(u)
         /\ \A i \in DOMAIN filters : MatchesFilter(a.objs[u], u, filters[i])
         /\ DateOk(a.objs[u], filters)}
+
+\* permitted as the property defines it ...
+LocateSet(a, id, filters) == LocateSetBy(a, id, filters, LAMBDA u : Grant(a, id, u, "Locate"))
+\* ... and as the engine decides it: it additionally denies requesters that carry group information
+\* under a policy without a groups section (a refusal C03 does not forbid; for Locate it means
+\* permitted objects are missing from the result - reported separately as C14_*_groups)
+LocateSetImpl(a, id, filters) == LocateSetBy(a, id, filters, LAMBDA u : Allowed(a, id, u, "Locate"))
 
 NoDupSeq(s) == \A i, j \in DOMAIN s : i # j => s[i] # s[j]
 
@@ -193,29 +200,41 @@ C14_order(a, it, r) ==
         /\ \A i, j \in DOMAIN r.uids : (i < j /\ r.uids[i] \in DOMAIN a.objs /\ r.uids[j] \in DOMAIN a.objs)
               => a.objs[r.uids[i]].idate >= a.objs[r.uids[j]].idate
 
-\* unpaged request: exactly the permitted matching objects
-C14_set(a, req, it, r) ==
-    (it.op = "Locate" /\ Succ(r) /\ it.p.offset < 0 /\ it.p.max < 0 /\ LocateDecided(it)
-       /\ Len(DateFilters(it.p.filters)) <= 2) =>
-        Range(r.uids) = LocateSet(a, Ident(req), it.p.filters)
+Unpaged(it) == it.p.offset < 0 /\ it.p.max < 0
+LocateJudged(it, r) == it.op = "Locate" /\ Succ(r) /\ LocateDecided(it) /\ Len(DateFilters(it.p.filters)) <= 2
 
-\* paged request: a subset of the same set, of the right size
+\* unpaged request: exactly the permitted matching objects
+SetOK(full, r) == Range(r.uids) = full
+C14_set(a, req, it, r) ==
+    (LocateJudged(it, r) /\ Unpaged(it)) =>
+        \/ SetOK(LocateSet(a, Ident(req), it.p.filters), r)
+        \/ SetOK(LocateSetImpl(a, Ident(req), it.p.filters), r)
+C14_set_groups(a, req, it, r) ==
+    (LocateJudged(it, r) /\ Unpaged(it)) =>
+        ~(~SetOK(LocateSet(a, Ident(req), it.p.filters), r) /\ SetOK(LocateSetImpl(a, Ident(req), it.p.filters), r))
+
+\* paged request: the slice of the same ordered list
+PageOK(a, it, r, full) ==
+    LET n == Cardinality(full)
+        off == IF it.p.offset < 0 THEN 0 ELSE it.p.offset
+        rest == IF off >= n THEN 0 ELSE n - off
+        want == IF it.p.max < 0 THEN rest ELSE Min2(it.p.max, rest) IN
+    /\ Range(r.uids) \subseteq full
+    /\ Len(r.uids) = want
+    \* the slice holds the right ranks: at most `off + i - 1` permitted matches are strictly newer than
+    \* the i-th returned one and at least `off + i` are at least as new (ties between equal dates are free)
+    /\ \A i \in DOMAIN r.uids :
+          Cardinality({u \in full : a.objs[u].idate > a.objs[r.uids[i]].idate}) <= off + i - 1
+    /\ \A i \in DOMAIN r.uids :
+          Cardinality({u \in full : a.objs[u].idate >= a.objs[r.uids[i]].idate}) >= off + i
 C14_page(a, req, it, r) ==
-    (it.op = "Locate" /\ Succ(r) /\ (it.p.offset >= 0 \/ it.p.max >= 0) /\ LocateDecided(it)
-       /\ Len(DateFilters(it.p.filters)) <= 2) =>
-        LET full == LocateSet(a, Ident(req), it.p.filters)
-            n == Cardinality(full)
-            off == IF it.p.offset < 0 THEN 0 ELSE it.p.offset
-            rest == IF off >= n THEN 0 ELSE n - off
-            want == IF it.p.max < 0 THEN rest ELSE Min2(it.p.max, rest) IN
-        /\ Range(r.uids) \subseteq full
-        /\ Len(r.uids) = want
-        \* the slice holds the right ranks: at most `off` permitted matches are newer than every
-        \* returned one, so with distinct dates the slice is determined
-        /\ \A i \in DOMAIN r.uids :
-              Cardinality({u \in full : a.objs[u].idate > a.objs[r.uids[i]].idate}) <= off + i - 1
-        /\ \A i \in DOMAIN r.uids :
-              Cardinality({u \in full : a.objs[u].idate >= a.objs[r.uids[i]].idate}) >= off + i
+    (LocateJudged(it, r) /\ ~Unpaged(it)) =>
+        \/ PageOK(a, it, r, LocateSet(a, Ident(req), it.p.filters))
+        \/ PageOK(a, it, r, LocateSetImpl(a, Ident(req), it.p.filters))
+C14_page_groups(a, req, it, r) ==
+    (LocateJudged(it, r) /\ ~Unpaged(it)) =>
+        ~(~PageOK(a, it, r, LocateSet(a, Ident(req), it.p.filters))
+          /\ PageOK(a, it, r, LocateSetImpl(a, Ident(req), it.p.filters)))
 
 --------------------------------------------------------------------------
 (* C15 - attribute operations *)
@@ -304,7 +323,7 @@ C05_attrs(a, req, it, r) ==
 
 ItemClauses == {"C03_effect", "C03_denial", "C03_owner", "C04_moves", "C04_initial", "C04_use", "C04_destroy",
                 "C07_fresh", "C07_reported", "C07_dead", "C07_frame", "C08_failclean", "C08_frame",
-                "C13_item", "C14_order", "C14_set", "C14_page", "C15_fixed", "C15_fail", "C15_exact",
+                "C13_item", "C14_order", "C14_set", "C14_page", "C14_set_groups", "C14_page_groups", "C15_fixed", "C15_fail", "C15_exact",
                 "C16_op", "C16_attrs", "C16_create", "C16_query", "C05_attrs"}
 
 Holds(c, a, req, it, r, b, g) ==
@@ -325,6 +344,8 @@ Holds(c, a, req, it, r, b, g) ==
       [] c = "C14_order" -> C14_order(a, it, r)
       [] c = "C14_set" -> C14_set(a, req, it, r)
       [] c = "C14_page" -> C14_page(a, req, it, r)
+      [] c = "C14_set_groups" -> C14_set_groups(a, req, it, r)
+      [] c = "C14_page_groups" -> C14_page_groups(a, req, it, r)
       [] c = "C15_fixed" -> C15_fixed(a, it, b)
       [] c = "C15_fail" -> C15_fail(a, it, r, b)
       [] c = "C15_exact" -> C15_exact(a, req, it, r, b)
